@@ -31,8 +31,10 @@ RULE = (
     "histories over two persistent rows of a class with one MutableDict/MutableList/MutableSet column (JSON and "
     "PickleType, chosen per case): every method of the builtin type (each in-place mutator with several argument "
     "shapes, plus reads) applied through the attribute, through a saved reference and through an unpickled copy, "
-    "followed by each of flush / commit / rollback / expire / refresh / pickle+merge continuations (exhaustive over "
-    "method x continuation templates), the scenario templates of the known defects, and seeded random histories of "
+    "followed by each of flush / commit / rollback / expire / refresh / pickle+merge continuations (method x continuation "
+    "grid: thorough exhaustive, quick a seeded twelfth plus every method once with flush+commit), pickle/merge templates "
+    "and the unpickle-add()-mutate-flush family also from containers that are EMPTY at pickle time, the scenario templates "
+    "of the known defects, and seeded random histories of "
     "3..12 operations over the whole alphabet (assignment of plain values / None / a saved value object shared between "
     "rows, detached copies, merge). non-trivial = the history contains an in-place mutation and a flush/commit. "
     "MutableComposite: oracle-only random histories on a two-column composite."
@@ -266,7 +268,7 @@ def _mutators(kind):
     if kind == 0:
         ops = [
             ("__setitem__", [0, 7, 7]), ("__setitem__", [0, 0, 9]), ("__delitem__", [1, 0]), ("clear", [2]),
-            ("pop", [3, 0, None]), ("pop", [3, 0, 4]), ("popitem", [4]), ("setdefault", [5, 7, 3]),
+            ("pop", [3, 0, None]), ("pop", [3, 0, 4]), ("pop", [3, 1, 2]), ("pop", [3, 0, 1]), ("popitem", [4]), ("setdefault", [5, 7, 3]),
             ("update", [6, [1, [[0, 8], [5, 5]]], []]), ("update", [6, [2, [[6, 1]]], [[7, 2]]]), ("update", [6, [0], [[8, 8]]]),
             ("__ior__", [7, [[0, 6], [9, 9]]]),
             ("-setdefault-existing", [5, 0, 3]), ("-pop-default-absent", [3, 8, 4]), ("-delitem-absent", [1, 8]),
@@ -314,6 +316,8 @@ def _continuations():
         ("copy-mutate-merge", [[9, 0], ("C",), [10, 0], [4], [5]]),
         ("copy-mutate-merge-expired", [[2, S0], [9, 0], [5], ("C",), [10, 0], [4]]),
         ("merge-then-mutate", [[9, 0], [10, 0], M, [4]]),
+        ("merge-flush-mutate", [[9, 0], [10, 0], [4], M, [4], [5]]),
+        ("merge-commit-mutate-copy", [[2, S0], [9, 0], [10, 0], [4], ("C",), [4], [5]]),
         ("merge-then-mutate-copy", [[9, 0], [10, 0], ("C",), [4]]),
         ("set-then-mutate", [[1, S0, "P"], M, [4]]),
         ("mutate-then-set", [M, [1, S0, "P"], [4]]),
@@ -424,36 +428,61 @@ def _has_set_pop(ops):
     return any(o[0] == 0 and o[2][0] == 2 and o[2][1][0] == 3 for o in ops)
 
 
+def _adders(kind):
+    """mutators that change an EMPTY container"""
+    if kind == 0:
+        return [[0, [0, 7, 7]], [0, [6, [1, [[0, 8], [5, 5]]], []]], [0, [5, 3, 4]], [0, [7, [[9, 9]]]]]
+    if kind == 1:
+        return [[1, [0, 7]], [1, [7, [0, [7, 8]]]], [1, [2, 0, 7]], [1, [8, [0, [7]]]]]
+    return [[2, [0, 7]], [2, [5, [0, [7, 8]]]], [2, [9, [0, [7]]]], [2, [8, [0, [1, 7]]]]]
+
+
+# continuations instantiated in every quick run with several methods (they carry the seeded / known defects)
+ALWAYS_TEMPLATES = ("merge-flush-mutate", "merge-commit-mutate-copy", "takeout-putback", "shared-expire-self", "pickle-merge")
+PICKLE_TEMPLATES = ("pickle-merge", "copy-mutate-merge", "copy-mutate-merge-expired", "merge-then-mutate",
+                    "merge-then-mutate-copy", "pickle-modified", "merge-flush-mutate")
+
+
 def gen_cases(rng, tier):
     cases = []
-    pick = rng.randint(0, 2)
+    quick = tier != "thorough"
+    pick = rng.randint(0, 11)
     for kind in (0, 1, 2):
         conts = _conts(kind)
         plain = conts[1]
+        main = conts[2] if kind != 1 else conts[3]
         for mi, (name, mop) in enumerate(_mutators(kind)):
             for ci, (cname, tmpl) in enumerate(_continuations()):
-                if tier != "thorough" and (mi + ci + pick) % 3:
-                    continue  # quick tier: a third of the method x continuation grid (seeded rotation)
-                init = conts[2] if kind != 1 else conts[3]
+                if quick and (mi + ci + pick) % 12 and not (cname in ALWAYS_TEMPLATES and mi % 8 == pick % 8):
+                    continue  # quick tier: a twelfth of the method x continuation grid (seeded rotation)
                 ops = _instantiate(tmpl, mop, plain)
-                cases.append({"in": [kind, [init, conts[1]], ops], "kind": "tmpl-" + cname})
-            # the same method from every small pre-state, then flush
-            for c in conts:
+                cases.append({"in": [kind, [main, conts[1]], ops], "kind": "tmpl-" + cname})
+            # the same method from small pre-states, then flush (quick: one pre-state, all methods)
+            for c in ([main] if quick else conts):
                 cases.append({"in": [kind, [c, None], [[0, S0, mop], [4], [5]]], "kind": "method-x-state"})
+        # pickling / merging an object whose container is EMPTY at pickle time
+        for ai, mop in enumerate(_adders(kind)):
+            for ci, (cname, tmpl) in enumerate(_continuations()):
+                if cname in PICKLE_TEMPLATES and (not quick or (ai + ci + pick) % 2 == 0):
+                    cases.append({"in": [kind, [conts[0], conts[1]], _instantiate(tmpl, mop, plain)], "kind": "tmpl-empty-" + cname})
         # set.pop (which member: the builtin's choice) - oracle only
         if kind == 2:
             for c in conts:
                 cases.append({"in": [kind, [c, None], [[0, S0, [2, [3]]], [4], [5]]], "kind": "method-x-state"})
-    # unpickled object re-attached to a NEW session with session.add(), then mutated and flushed (oracle only)
+    # unpickled object re-attached to a NEW session with session.add(), then mutated and flushed (oracle only):
+    # every mutator on a non-empty value, the adding ones on a value that is empty at pickle time
     for kind in (0, 1, 2):
         conts = _conts(kind)
         for name, mop in _mutators(kind):
             if not name.startswith("-"):
                 cases.append({"in": [4 + kind, conts[2] if kind != 1 else conts[3], [mop]], "kind": "reattach", "model": False})
-    nrand = 6000 if tier == "thorough" else 450
+        for mop in _adders(kind):
+            cases.append({"in": [4 + kind, conts[0], [mop]], "kind": "reattach-empty", "model": False})
+            cases.append({"in": [4 + kind, conts[0], [mop, mop]], "kind": "reattach-empty", "model": False})
+    nrand = 6000 if tier == "thorough" else 90
     for i in range(nrand):
         cases.append(_rand_case(rng, i % 3))
-    for i in range(nrand // 5):
+    for i in range(max(nrand // 5, 24)):
         cases.append(_rand_composite(rng))
     seen, out = set(), []
     for c in cases:
@@ -979,6 +1008,14 @@ def oracle(case, obs):
                     "row %d: in-memory value %r differs from the database value %r and the parent is not flagged "
                     "modified (after op %s, result code %d)" % (r, mem, dbv, op, rc),
                     fail="unflagged", k=k, r=r, rc=rc, op=op)
+        # "any in-place mutation marks the parent object modified" - also for an unpickled (detached) copy
+        if op[0] == 0 and op[1][0] == 1 and rc == 0 and k > 0:
+            r = op[1][1]
+            before, after = full[k - 1][2][r], o[2][r]
+            if before != [] and after != [] and before[0] != after[0] and not after[1]:
+                return _fail(
+                    "the unpickled copy of row %d was mutated in place by %s (%r -> %r) and is not flagged modified"
+                    % (r, op[2], before[0], after[0]), fail="copy-unflagged", k=k, r=r, rc=rc, op=op)
     return None
 
 
